@@ -104,6 +104,12 @@ def random_instance(rng, P, mode, kinds, maxM=3, maxn=2, h1=True):
     rc = rng.choice(['TF', 'TT', 'FT'])
     # block strictly triangular (nilpotent) or general operators
     A = mat(n, n)
+    if kind == 'rk':
+        A_ = mat(n, n)
+        QI = low(mat(M, M))
+        w = QI[M - 1] if rng.random() < 0.4 else [z() for _ in range(M)]
+        return dict(kind='rk', M=M, n=n, dt=rng.choice([1, 2, 3][:P - 2] if P > 3 else [1, 2]), rightnode=True, collupdate=False, A=A_,
+                    B=zero(n, n), c=0, Q=[list(r) for r in QI], QI=QI, QE=zero(M, M), w=list(w), u0=[z() for _ in range(n)], U=mat(M, n), tau=[])
     inst = dict(kind=kind, M=M, n=n, dt=rng.choice([1, 2, 3][:P - 2] if P > 3 else [1, 2]), rightnode=rc in ('TF', 'TT'), collupdate=rc in ('TT', 'FT'),
                 A=A, B=zero(n, n) if kind == 'impl' else mat(n, n), c=0 if kind == 'impl' else z(),
                 Q=mat(M, M), QI=zero(M, M) if kind == 'expl' else low(mat(M, M)), QE=zero(M, M) if kind == 'impl' else slow(mat(M, M)),
@@ -167,7 +173,8 @@ def _tv_run_job(args):
             mode = 'transfer'
         else:
             out = zp_cases.run_sweep_case(inst, p)
-            out['rel_ok'] = bool(out.pop('full_rel_ok', True) and out.pop('last_rel_ok', True))
+            out['rel_ok'] = bool(out.pop('full_rel_ok', True) and out.pop('last_rel_ok', True)) and out.get('rel_ok', True)
+            out.setdefault('uend_after', [])
             out.setdefault('f_fresh', True)
             out.setdefault('u0_kept', True)
             mode = 'sweep'
